@@ -27,7 +27,7 @@ func (a *Act) instr(st *State, b *ssa.BasicBlock, instr ssa.Instruction) {
 		pp := tr.eng.fset.Position(instr.Pos())
 		_, src := a.srcLine(instr.Pos())
 		ns := normSrc(src)
-		for _, aa := range a.contract.atAsserts {
+		for ai, aa := range a.contract.atAsserts {
 			if aa.src != ns {
 				continue
 			}
@@ -37,7 +37,7 @@ func (a *Act) instr(st *State, b *ssa.BasicBlock, instr ssa.Instruction) {
 			if aa.occ > 0 && a.occurrenceOf(pp.Filename, pp.Line, ns) != aa.occ {
 				continue
 			}
-			key := fmt.Sprintf("assert/%p/%s/%d/%d", a, aa.src, aa.occ, pp.Line)
+			key := fmt.Sprintf("assert/%p/%s/%d/%d/%d", a, aa.src, aa.occ, pp.Line, ai)
 			if !tr.atDone[key] {
 				tr.atDone[key] = true
 				e := &specEnv{a: a, tr: tr, pkg: a.contract.pkg, st: st, old: a.entryState, vars: map[string]specVal{}, errs: &tr.specErrs, preferLocals: true}
@@ -90,7 +90,7 @@ func (a *Act) instr(st *State, b *ssa.BasicBlock, instr ssa.Instruction) {
 		pp := tr.eng.fset.Position(instr.Pos())
 		_, src := a.srcLine(instr.Pos())
 		ns := normSrc(src)
-		for _, aa := range a.contract.atAssumes {
+		for ai, aa := range a.contract.atAssumes {
 			if aa.src != ns {
 				continue
 			}
@@ -101,7 +101,7 @@ func (a *Act) instr(st *State, b *ssa.BasicBlock, instr ssa.Instruction) {
 			if aa.occ > 0 && a.occurrenceOf(pp.Filename, pp.Line, ns) != aa.occ {
 				continue
 			}
-			key := fmt.Sprintf("%p/%s/%d/%d", a, aa.src, aa.occ, pp.Line)
+			key := fmt.Sprintf("%p/%s/%d/%d/%d", a, aa.src, aa.occ, pp.Line, ai)
 			if !tr.atDone[key] {
 				tr.atDone[key] = true
 				e := &specEnv{a: a, tr: tr, pkg: a.contract.pkg, st: st, old: a.entryState, vars: map[string]specVal{}, errs: &tr.specErrs, preferLocals: true}
